@@ -197,6 +197,13 @@ def run_case(ctx, case):
         dst = sig.new_project(ctx, "dst")
         schema = None
         origin = target
+        spell = (len(case["jobs"]) + len(str(case["path"])) + len(case["target"])) % 4
+        if spell == 1:
+            origin = os.path.join(os.path.dirname(target), ".", os.path.basename(target))  # ..././name
+        elif spell == 2 and case["target"] == "dir":
+            origin = target + os.sep
+        if origin != target:
+            ctx.count("import_origin_spelt_unnormalised")
         if case["mode"] == "schema":
             schema = SCHEMA_FAMILIES[case["family"]][1]
             if case["family"] == "ints" and len(case["jobs"]) % 2 == 0:
